@@ -296,6 +296,9 @@ void OrderedSimplex::fireParameterChanged(const ParameterList& pl)
 void OrderedSimplex::setFrequencies(const std::vector<double>& vValues)
 {
   auto dim = vValues.size();
+  if (dim == 0)
+    return;
+
   Vdouble vprob(dim);
 
   for (size_t i = 0; i < dim - 1; ++i)
